@@ -400,6 +400,8 @@ def rule_resolution(ck, F):
                     cur = cur[2][0]
                 elif isinstance(cur, tuple) and cur[0] == "call" and cur[1] == "iter::map":
                     cur = cur[2][1]
+                elif isinstance(cur, tuple) and cur[0] == "list" and len(cur[1]) == 1 and cur[1][0][0] == "star":
+                    cur = cur[1][0][2]       # a table filled in one loop: what each round puts in
                 else:
                     break
             if isinstance(cur, tuple) and cur[0] == "tuple" and len(cur[1]) == 2:
